@@ -63,7 +63,9 @@ func elems(s string) []string { // "[a b]" / "{a b}" -> elements
 	return strings.Split(s, " ")
 }
 
-func appendList(a, b string) string { return "[" + strings.Join(append(elems(a), elems(b)...), " ") + "]" }
+func appendList(a, b string) string {
+	return "[" + strings.Join(append(elems(a), elems(b)...), " ") + "]"
+}
 
 func mergeMap(a, b string) string {
 	m := map[string]string{}
